@@ -79,24 +79,35 @@ Proof. exact M09_commute_needs_alias_free. Qed.
 
 (** ** 4b. the traversals that the call-log correspondence ties to the code (entity.method(...) and
     entity.transform([...])) make exactly the leaf calls of [visits], in the same order; what they add is the
-    unobservable bookkeeping of Operation.invert.  A transformation list applied to a bare Angle is the exception. *)
+    unobservable bookkeeping of Operation.invert.  With fix C09-9 entity.transform([...]) is the sequence of method
+    calls on the entity itself, so this holds for every entity - a bare Angle included (the former exception). *)
 Definition C09_traversal_stmt : Prop :=
   (forall k n, filter observable (method_visits k n) = visits k n) /\
   (forall k n, k <> KMirror -> method_visits k n = visits k n) /\
-  (forall k n, not_angle n -> filter observable (list_visits k n) = visits k n).
+  (forall k n, filter observable (list_visits k n) = visits k n).
 Theorem C09_traversal : C09_traversal_stmt.
 Proof. exact M09_traversal. Qed.
 
 Definition C09_list_on_angle_stmt : Prop :=
   forall k i, filter observable (list_visits k (NAngle i)) = visits k (NAngle i).
-Theorem C09_list_on_angle_refuted : ~ C09_list_on_angle_stmt.
-Proof. exact M09_list_on_angle_refuted. Qed.
+Theorem C09_list_on_angle : C09_list_on_angle_stmt.
+Proof. exact M09_list_on_angle. Qed.
+
+(** a transformation list is the sequence of method calls on the entity itself (own overrides included); the one
+    exception, pinned by the library's tests: an operation transformed through a list is mirrored but not inverted
+    (no face swap, no side-edge reversal) - operations inside a shape or stack are inverted as by a method call *)
+Definition C09_list_is_method_stmt : Prop :=
+  (forall k n, top_oper n = false -> list_visits k n = method_visits k n /\ list_tree k n = method_tree k n) /\
+  (forall k b t s, list_visits k (NOper b t s) = visits k (NOper b t s) /\ list_tree k (NOper b t s) = NOper b t s) /\
+  (forall k n, k <> KMirror -> list_visits k n = method_visits k n /\ list_tree k n = method_tree k n).
+Theorem C09_list_is_method : C09_list_is_method_stmt.
+Proof. exact M09_list_is_method. Qed.
 
 (** ** 4c. commutation at heap level for exactly the traversals that the correspondence ties to the code:
     after entity.translate/rotate/scale/mirror(...) on an alias-free entity every position leaf and every Angle
     axis holds its image; a point array holds its image, possibly with the rows in reverse order (side edge of an
     operation that a reflection turned over, see C09_reverse); nothing else changes.  The same for
-    entity.transform([...]) unless the entity is a bare Angle. *)
+    entity.transform([...]), for every entity. *)
 Definition C09_method_commute_stmt : Prop :=
   forall t n h, valid t -> alias_free n = true ->
     (forall r i, In (r, i) (leaves n) -> role_ok r (h i)) ->
@@ -108,7 +119,7 @@ Theorem C09_method_commute : C09_method_commute_stmt.
 Proof. exact method_commute. Qed.
 
 Definition C09_list_commute_stmt : Prop :=
-  forall t n h, valid t -> alias_free n = true -> not_angle n ->
+  forall t n h, valid t -> alias_free n = true ->
     (forall r i, In (r, i) (leaves n) -> role_ok r (h i)) ->
     let h' := run_visits t (list_visits (kind_of t) n) h in
     (forall r i, In (r, i) (leaves n) -> h' i = image_cell t r (h i) \/ h' i = rev_cell (image_cell t r (h i))) /\
@@ -226,7 +237,8 @@ Print Assumptions C09_direction_linear.
 Print Assumptions C09_commute.
 Print Assumptions C09_commute_needs_alias_free.
 Print Assumptions C09_traversal.
-Print Assumptions C09_list_on_angle_refuted.
+Print Assumptions C09_list_on_angle.
+Print Assumptions C09_list_is_method.
 Print Assumptions C09_method_commute.
 Print Assumptions C09_list_commute.
 Print Assumptions C09_compose.
